@@ -164,6 +164,16 @@ class Builder(object):
                         return next()
                     finally:
                         LOG.append('<' + self.tag)
+            if name in ('B', 'N'):
+                # these types also wrap the WSGI application (arrives with the embedded application's routes)
+                def wsgi_wrapper(self, inner):
+                    tag = self.tag
+
+                    def wrapped(environ, start_response):
+                        LOG.append('[' + tag)
+                        return inner(environ, start_response)
+                    return wrapped
+                _M.wsgi_wrapper = wsgi_wrapper
             _M.__name__ = CLASSNAME.get(name, name)
             _M.__qualname__ = _M.__name__
             _M.unique = unique
